@@ -24,6 +24,7 @@ type c01P struct {
 	Now    string `json:"now"`    // past | driftm1 | drift | driftp1 | hour
 	Shape  string `json:"shape"`  // type-level result: nil | plain | ve-hard | ve-soft | wve-hard | wve-soft
 	Reps   int    `json:"reps"`
+	Base   string `json:"base,omitempty"` // "" heights around 10^6 | max: heights at the top of uint64
 }
 
 var errCause = errors.New("c01: type-level cause")
@@ -67,6 +68,14 @@ func TestC01(t *testing.T) {
 			}
 		}
 	}
+	// the same relations with heights at the very top of uint64 (arithmetic on heights must not wrap)
+	for _, hr := range []string{"lt", "eq", "adj", "plus2", "far"} {
+		for _, tt := range []string{"lt", "gt"} {
+			for _, sh := range shapes {
+				mon.Emit(r, "grid", c01P{Zero: "none", Chain: "same", Height: hr, TTime: tt, Now: "past", Shape: sh, Reps: reps, Base: "max"}, "grid")
+			}
+		}
+	}
 	r.Finish()
 }
 
@@ -107,10 +116,23 @@ func c01Run(c *mon.Case, p c01P) {
 				}
 			}
 			th := uint64(2 + rng.Int63n(1_000_000))
+			if p.Base == "max" {
+				th = ^uint64(0) - map[string]uint64{"lt": 0, "eq": 0, "adj": 1, "plus2": 2, "far": 1_001_000}[p.Height]
+				if p.Height == "far" {
+					th -= uint64(rng.Int63n(1000))
+				}
+			}
 			var uh uint64
 			switch p.Height {
 			case "lt":
-				uh = 1 + uint64(rng.Int63n(int64(th-1)))
+				if p.Base == "max" {
+					uh = th - 1 - uint64(rng.Int63n(1000))
+					if rep == 1 {
+						uh = 3 // far below
+					}
+				} else {
+					uh = 1 + uint64(rng.Int63n(int64(th-1)))
+				}
 			case "eq":
 				uh = th
 			case "adj":
@@ -235,6 +257,6 @@ func c01Run(c *mon.Case, p c01P) {
 				oc = k
 			}
 		}
-		c.Class("%s|%s|%s|%s|%s|%s => %s", p.Zero, p.Chain, p.Height, p.TTime, p.Now, p.Shape, oc)
+		c.Class("%s|%s|%s%s|%s|%s|%s => %s", p.Zero, p.Chain, p.Height, p.Base, p.TTime, p.Now, p.Shape, oc)
 	})
 }
